@@ -16,6 +16,7 @@ rows = [json.loads(l) for l in open(inp)]
 todo = [r for r in rows if r.get("tests") == "pass" and (r["file"], r["line"], r["kind"]) not in done]
 print(len(todo), "survivors to re-check", flush=True)
 ALL = ["C%02d" % i for i in range(1, 20)]
+SITES = json.load(open("/var/tmp/ms/site_map.json")) if os.path.exists("/var/tmp/ms/site_map.json") else {}
 
 
 def one(ir):
@@ -30,7 +31,9 @@ def one(ir):
         src[r["line"] - 1] = r["new"]
         open(p, "w").write("\n".join(src))
         caught = []
-        for pid in ALL:
+        pids = sorted(set(SITES.get(r["file"], ALL)) - set(x.split()[0] for x in r.get("caught_by") or [] if False))
+        r["checked"] = pids
+        for pid in pids:
             rc, out = scratch.run_check(pid, d)
             if rc == 1:
                 inst = [x.strip() for x in out.splitlines() if x.strip().startswith("instance")][:1]
